@@ -23,7 +23,7 @@ CHECKS = {
          "All c incl. none, malformed and foreign-network addresses, query vs update variants; error classes must agree.",
          "No model needed; 40% of the histories ingest stabilising blocks in slices and check the relation at every pause."),
  "C06": ("stateful page-walk generation interleaved with state changes + mutated page tokens, against the model ledger at the first response's tip",
-         "One further page after every following operation (blocks, forks, stabilisation, upgrades); concatenation must equal the first tip's snapshot or end in an explicit error with the tip really gone; mutated tokens must give an error or a consistent sub-sequence, never a trap. A libFuzzer target (fuzz/page_blob) covers raw blobs in the thorough tier.",
+         "Walks start unfiltered or with min_confirmations (cut views below the tip); one further page after every following operation (blocks, forks, stabilisation, upgrades) and at every pause of a time-sliced ingestion; concatenation must equal the first tip's snapshot or end in an explicit error with the tip really gone; mutated tokens must give an error or a consistent sub-sequence, never a trap. A libFuzzer target (fuzz/page_blob) covers raw blobs in the thorough tier.",
          "The hook verif_get_utxos_with_limit calls the endpoint's internal function with a smaller page size."),
  "C07": ("model-based differential of header ranges at every step and at every pause point of sliced ingestion",
          "All (start,end) pairs for small tips (sampled otherwise, incl. the 100-header cap) compared byte-exactly with the model best chain: count, order, 80 bytes, linkage, tip_height, errors.",
@@ -32,7 +32,7 @@ CHECKS = {
          "Snapshot before ingestion == snapshot after every paused round; no fetch / no processing while paused; rounds bounded; sliced vs unsliced twin final state and bookkeeping identical; model oracles at pause points; thorough enumerates all compositions of an 8-operation block.",
          "Lazy fee mode (stored percentiles depend on the heartbeat in which a tip is first seen)."),
  "C09": ("upgrade injection at generated message boundaries with twin runs under a request-deterministic block source",
-         "Snapshot identical across pre_upgrade/post_upgrade, tree identical, fetch state reset, exact config delta with an argument; twin without upgrades: equal sequences of distinct observable states and equal final state; next request initial; syncing completes within a bound; fee percentiles after an upgrade follow the nearest-rank model (C15's oracle).",
+         "Snapshot (incl. tree gauges, stable-set sizes and is_synced of the natively executed metrics endpoint) identical across pre_upgrade/post_upgrade, also from non-default configurations (plain upgrade after an upgrade with argument), tree identical, fetch state reset, exact config delta with an argument; twin without upgrades: equal sequences of distinct observable states and equal final state; next request initial; syncing completes within a bound; fee percentiles after an upgrade follow the nearest-rank model (C15's oracle).",
          "Mid-fetch = between pages/before processing; utxos_length checked at the upgrade itself (known finding F6) and excluded from twin comparison."),
  "C10": ("generated response contents (valid/duplicate/orphan/garbage/mutated blocks and announced headers) judged by an independent admission predicate",
          "Tree after processing = previous tree + admitted prefix; exactly one error counter +1 iff refused; later blocks dropped; all model query oracles and bookkeeping exactness still hold; heartbeat never traps. A libFuzzer target (fuzz/block_bytes) covers raw bytes in the thorough tier.",
